@@ -10,6 +10,7 @@ import (
 
 	"go.pennock.tech/tabular"
 	"go.pennock.tech/tabular/length"
+	"go.pennock.tech/tabular/texttable/decoration"
 )
 
 // ---------- C01: the documented text form, by reflection on method sets (no type switch) ----------
@@ -398,7 +399,7 @@ func init() {
 			cbN := 0
 			regFail := func(owner, when, target string) {
 				cbN++
-				e := strconv.Itoa(100000 + cbN*100)
+				e := strconv.Itoa(100000 + cbN*100 + r.n(5)) // the last digit picks the error value's shape (mkErr)
 				res := g.do(fmt.Sprintf("regcb %s %s %s %s fail:%d:%s", t, owner, when, target, cbN, e))
 				if res == "ok" {
 					failCbs[cbN] = e
@@ -957,6 +958,7 @@ func init() {
 			before := snapshot(g, t)
 			first := map[string]string{}
 			ws := map[string]string{}
+			rawDecor := ""
 			n := 3 + r.n(7)
 			all := g.registeredNames()
 			names := []string{all[r.n(len(all))], all[r.n(len(all))]} // few names per case, so that paths meet
@@ -975,6 +977,21 @@ func init() {
 						name := r.pick(names)
 						g.do("setdecornamed " + w + " " + hx(name))
 						key = "text/" + name
+						if r.chance(1, 3) {
+							// a hand-assembled decoration that Populate never completed, the same one all case long
+							if rawDecor == "" {
+								var d decoration.Decoration
+								fs := decorFields(&d)
+								for i := range fs {
+									if r.chance(1, 3) {
+										*fs[i] = r.pick([]string{"|", "-", "+", "#", "═"})
+									}
+								}
+								rawDecor = showDecor(d)
+							}
+							g.do("setdecor " + w + " " + rawDecor)
+							key = "text/raw"
+						}
 					}
 					cl, f := parseRes(g.do("render " + w))
 					res = cl + "|" + f["out"]
